@@ -210,7 +210,14 @@ def run(ctx):
     with open(LEDGER) as fh:
         ledger = {e["key"]: e["reason"] for e in json.load(fh)["entries"]}
 
-    inv = panics.Inventory(ctx, ROOTS, skip=lambda p: "::tests::" in p)
+    # hand-written Display impls are reached through format!'s dynamic dispatch (error messages of the loader): they
+    # are roots of their own.  (derive-generated Debug/Display bodies only forward to the formatter.)
+    fmt_roots = []
+    for pth in sorted(ctx.F.bodies):
+        if pth.startswith("<") and " as std::fmt::Display>::fmt" in pth and "{closure" not in pth and "::tests::" not in pth:
+            fmt_roots.append(pth)
+    ck.analysed["display_impl_roots"] = len(fmt_roots)
+    inv = panics.Inventory(ctx, ROOTS + fmt_roots, skip=lambda p: "::tests::" in p)
     inv.run()
     ck.analysed.update({"cone_bodies": len(inv.cone), "bodies_walked": inv.bodies_walked, "paths": inv.paths, "sites": len(inv.sites),
                         "bodies_scanned_blockwise": inv.skipped_bodies})
